@@ -125,8 +125,13 @@ func buildCases(rep *lib.Report) []*ccase {
 							}
 						}
 					} else {
-						// arity 3, thorough: every matrix once, form and body rotate with the matrix and the seed
+						// arity 3, thorough: every matrix with <= 1 result; of the 32768 matrices with 2 results the
+						// fifth selected by the seed (seeds 1..5 together cover all of them); form and body rotate
+						// with the matrix and the seed
 						h := int(ab*31+rb*7) + int(lib.Seed())
+						if m == 2 && (int(ab)+int(rb))%5 != int(lib.Seed())%5 {
+							continue
+						}
 						add(n, m, ab, rb, forms[h%4], (h/4)%2 == 0)
 					}
 				}
